@@ -137,6 +137,10 @@ def _size(draw, box, lo=8, hi=70):
 
 @st.composite
 def transform_list(draw, box, allow_degenerate=False):
+    if draw(st.integers(0, 9)) == 0:
+        # a single operation close to the identity (all six coefficients within ~0.1 of it): moves content far from the
+        # origin visibly, so it must not be mistaken for "no transform"
+        return draw(st.sampled_from(["rotate(5)", "rotate(-4)", "rotate(3)", "scale(1.08)", "scale(0.93)", "scale(1.06 0.95)", "skewX(5)", "skewY(-4)", "matrix(1 0.06 -0.05 1 0 0)", "matrix(0.97 0 0 1.04 0.05 -0.05)"]))
     n = draw(st.sampled_from([1, 1, 2, 2, 3]))
     ops = []
     sep = draw(st.sampled_from([" ", ",", ", ", "  "]))
